@@ -231,10 +231,10 @@ fn main() {
         let msg = i.payload().downcast_ref::<&str>().map(|s| s.to_string()).or(i.payload().downcast_ref::<String>().cloned()).unwrap_or_default();
         LAST_PANIC.with(|p| *p.borrow_mut() = format!("{} {}", loc, msg.replace(char::is_whitespace, "_")));
     }));
-    // Every case runs in a worker thread; this thread waits for the answer with a limit (VERIF_HANG_SECS, default 60 s). A case that does not
+    // Every case runs in a worker thread; this thread waits for the answer with a limit (VERIF_HANG_SECS, default 120 s). A case that does not
     // answer is reported as  "<line> => PANIC hang:no_answer_within_<n>_s"  (non-termination is a failure of the "terminates without panicking"
     // clauses), the stuck worker is abandoned and a fresh one takes over; after 4 such cases the run stops (the runner reports the cases not executed).
-    let hang_secs: u64 = std::env::var("VERIF_HANG_SECS").ok().and_then(|v| v.parse().ok()).unwrap_or(60);
+    let hang_secs: u64 = std::env::var("VERIF_HANG_SECS").ok().and_then(|v| v.parse().ok()).unwrap_or(120);
     fn spawn_worker() -> (std::sync::mpsc::Sender<String>, std::sync::mpsc::Receiver<String>) {
         let (tx_line, rx_line) = std::sync::mpsc::channel::<String>();
         let (tx_res, rx_res) = std::sync::mpsc::channel::<String>();
